@@ -61,6 +61,10 @@ def scenarios(ctx):
     fams.append([(0, 1), (0, 1)])
     fams.append([(0, 1), (0, 1), (0, 1, 2)])
     fams.append([(0,), (1,), (2,)])
+    fams.append([(), ()])                                    # two genomes with empty signatures: distance 0
+    fams.append([(), (0, 1), (), (0, 1)])
+    fams.append([(), (), (2,)])
+    fams.append([(0,), (), ()])
     fams.append([(0, 1), (2, 3), (4, 5), (0, 2)])
     fams.append([(0, 1), (0, 2), (3, 4), (3, 5)])          # ((a1,a2),(b1,b2)) with d(a) < d(b): cluster joined with a cluster
     fams.append([(0, 1, 2), (0, 1, 3), (4, 5), (4,)])
@@ -157,6 +161,4 @@ def run(ctx):
                         'the implementation clusters float32 distances in double arithmetic and prints %1.8g; exact-arithmetic ties may be broken either way (the spec is nondeterministic on ties)']
 
 
-def replay(ctx, scen):
-    print('C17 scenarios are re-run by the check itself; run ./check C17 --tier quick (scenario is in the replay file)')
-    return True
+replay = core.RERUN
